@@ -199,3 +199,28 @@ def _dataset_case(name, nmax):
 
 
 DATASET_CASES = [_dataset_case("intel", 150), _dataset_case("garage", 120), _dataset_case("intel", 40), _dataset_case("garage", 40)]
+
+
+def pinned_big_chi2(ctx):
+    """chi2 frame invariance on one large pure SE(2) odometry graph (thousands of edges; the frame rotation pushes many headings across +-pi)."""
+    rng = np.random.default_rng(707)
+    nv, ne = 1200, 4600
+    vertices = [{"id": j, "kind": "se2", "pose": [float(x) for x in rng.normal(size=2) * 20] + [float(rng.uniform(-3.1, 3.1))], "fixed": j == 0} for j in range(nv)]
+    edges = []
+    for _ in range(ne):
+        a, b = rng.choice(nv, 2, replace=False)
+        z = R.vals(R.ominus("se2", vertices[int(b)]["pose"], vertices[int(a)]["pose"]))
+        z = [z[0] + rng.normal() * 0.1, z[1] + rng.normal() * 0.1, R.val(R.wrap(z[2] + rng.normal() * 0.05))]
+        edges.append({"type": "odo", "ids": [int(a), int(b)], "info": gen.spd(rng, 3, 20.0, True).tolist(), "est": z, "est_kind": "se2"})
+    spec = {"vertices": vertices, "edges": edges}
+    for ang in (2.0, -3.0):
+        T = [float(rng.normal() * 50), float(rng.normal() * 50), ang]
+        g, gt = M.build(spec), M.build(transform_spec(spec, "se2", T))
+        with np.errstate(all="ignore"):
+            c0, c1 = float(g.calc_chi2()), float(gt.calc_chi2())
+        ctx.close("chi2-frame-invariant", c1, c0, 1e-9 * abs(c0), {"kind": "se2", "where": "large pure odometry graph"}, {"T": T, "n_edges": ne}, {"n_edges": ne, "T": T})
+    ctx.count("class:graph_with_4000+_edges")
+    ctx.nontrivial("pinned-big-chi2")
+
+
+PINNED = [pinned_big_chi2]
